@@ -2,6 +2,8 @@
 //! with `--cfg it4innovations_hyperqueue_verif`) and prints traces in the line protocol of
 //! /verif/FRAMEWORK.md. One module per component; each exposes `pub fn main(mode: &str, args: &[String])`.
 pub mod util;
+pub mod world;
+pub mod sim;
 pub mod job;
 pub mod alloc;
 pub mod autoalloc;
